@@ -26,7 +26,7 @@ ASSUMPTIONS = [
     'collapse_cost (numpy pad/dstack/diff pipeline) and "the solve still terminates" beyond the unrolled steps are outside the claim',
 ]
 BOUNDS = {'quick': dict(history='<=3 records', n='<=3', steps_after_collapse=1), 'thorough': dict(history='<=4 records', n='<=3', steps_after_collapse=2)}
-BUDGET = {'quick': 400, 'thorough': 3600}
+BUDGET = {'quick': 1800, 'thorough': 3600}
 
 
 def history(ctx, G, n):
